@@ -651,8 +651,10 @@ theorem stack_rel (rest : List Img) : ∀ (im : Img), anyNone im.date = true →
 def appended (im other : Img) (tm : List (Option Rat)) : Img :=
   { im with series := true, slabs := im.slabs ++ other.slabs, time := tm, date := im.date ++ other.date }
 
+@[simp] theorem secondsBetween_self (d : Int) : secondsBetween d d = 0 := by simp [secondsBetween]
+
 def relDates (ds : List (Option Int)) (r : Int) : List (Option Rat) :=
-  ds.map fun d => d.map fun x => ((x - r : Int) : Rat)
+  ds.map fun d => d.map fun x => secondsBetween x r
 
 theorem append_dates (im other : Img) (hcs : other.cs = im.cs) (hsc : other.scalar = im.scalar)
     (hd : anyNone im.date = false) (hd' : anyNone other.date = false)
@@ -774,7 +776,7 @@ theorem stack_slice_dates' (cs : CS) (scalar : Bool) (x0 : Slab × Int) (rest : 
     (hsorted : List.Pairwise (· < ·) ((x0 :: rest).map (·.2))) (i : Nat) (hi : i < (x0 :: rest).length) :
     ∃ s, stack ((x0 :: rest).map (dated cs scalar)) = .ok s ∧
       s.timeSlice (i : Int) = .ok ⟨cs, false, scalar, [((x0 :: rest)[i]).1],
-        [some ((((x0 :: rest)[i]).2 - x0.2 : Int) : Rat)], [some ((x0 :: rest)[i]).2], some x0.2⟩ := by
+        [some (secondsBetween ((x0 :: rest)[i]).2 x0.2)], [some ((x0 :: rest)[i]).2], some x0.2⟩ := by
   obtain ⟨s, hs, c1, c2, c3, c4, c5, c6, c7⟩ := stack_dates_aux cs scalar rest (dated cs scalar x0) [x0.2] x0.2
     rfl rfl rfl rfl (by simp [dated, relDates]) (by simpa using hsorted)
   refine ⟨s, by simpa [stack] using hs, ?_⟩
@@ -1014,7 +1016,7 @@ theorem stack_slice_datedG (cs : CS) (scalar : Bool) (x0 : Slab × Int × Rat ×
     (hr : rest ≠ []) (hsorted : List.Pairwise (· < ·) ((x0 :: rest).map (·.2.1))) (i : Nat) (hi : i < (x0 :: rest).length) :
     ∃ s, stack ((x0 :: rest).map (datedG cs scalar)) = .ok s ∧
       s.timeSlice (i : Int) = .ok ⟨cs, false, scalar, [((x0 :: rest)[i]).1],
-        [some ((((x0 :: rest)[i]).2.1 - x0.2.2.2 : Int) : Rat)], [some ((x0 :: rest)[i]).2.1], some x0.2.2.2⟩ := by
+        [some (secondsBetween ((x0 :: rest)[i]).2.1 x0.2.2.2)], [some ((x0 :: rest)[i]).2.1], some x0.2.2.2⟩ := by
   obtain ⟨s, hs, c1, c2, c3, c4, c5, c6, c7⟩ := stack_datesG_aux cs scalar rest (datedG cs scalar x0) [x0.2.1] x0.2.2.2
     rfl rfl rfl rfl (by simp [datedG, anyNone]) (fun h => absurd h hr) (by simpa using hsorted)
   refine ⟨s, by simpa [stack] using hs, ?_⟩
